@@ -33,6 +33,8 @@ fn verify_layout_signatures(
 fn verify_layout_expiration(layout: &LayoutMetadata) -> Result<()> {
     let time = layout.expires;
     let now = chrono::Utc::now();
+    #[cfg(feature = "verif-hooks")]
+    let now = crate::verif_hooks::now_override().unwrap_or(now);
     if time < now {
         return Err(Error::VerificationFailure("layout expired".to_string()));
     }
